@@ -19,6 +19,8 @@ def tree_phase(run, tier, seed, tot):
     print(f"[C07] (b) IR tree explorer: {len(units)} work units", flush=True)
     trees = 0
     for status, res in run_pool("vx.txwork", "work_peephole", rotate(units, seed)):
+        if status == "skipped":
+            continue
         if status != "ok":
             run.report({"signature": {"kind": status}, "what": f"worker failed: {res}", "case": {}})
             continue
